@@ -1,7 +1,7 @@
 """C05 — host call/return protocol: arguments in, result out, sync or async (DESIGN.md 7.4)."""
 import os
 
-from vlib import common, schedcheck, schedgen
+from vlib import callgen, common, schedcheck, schedgen
 from vlib.common import Diff, LEAN
 
 PROPS_MODULE = "MorfuseModel.Props.C05"
@@ -11,14 +11,24 @@ PROP = schedcheck.SchedProp(
     relevant={"out", "ret", "_status", "cls", "thr", "vm"},
     what="a parameter value, the result seen by the host, or what a failed call left behind differs from the proved protocol")
 
+REC_PROP = schedcheck.SchedProp(
+    relevant={"out", "t", "recs", "cls", "thr", "_status"},
+    what="a bound parameter, a value of a host call record (argument or result, right after the call or once the thread finished), or what a call left behind differs from the proved protocol on result cells")
+
+
+def is_rec_case(c):
+    return len(c) > 1 and c[0] == "reset" and "## (" in c[1]
+
+
 TRUSTED = [
     "Lean 4.33.0 kernel; axioms propext / Classical.choice / Quot.sound only (audited on every run)",
-    "hand-written models lean/MorfuseModel/PtrCell/Model.lean (ScriptPointer) and Sched/Machine.lean (bindLoop, hostCall, end), tied by two differential runs: harness/ptrcell.cpp on real ScriptVariable cells, harness/engine.cpp on generated scripts",
-    "renderer tools/vlib/schedgen.py; hook H1; g++/ASan/UBSan",
+    "hand-written models lean/MorfuseModel/PtrCell/Model.lean (ScriptPointer), PtrCell/Call.lean (call records, STORE_PARAM on variable stores, SetFastData, end <expr>, CreateReturnThread — every statement a step of the cell model) and Sched/Machine.lean (bindLoop, hostCall, end), tied by three differential runs: harness/ptrcell.cpp on real ScriptVariable cells, harness/callrec.cpp and harness/engine.cpp on generated scripts",
+    "renderers tools/vlib/schedgen.py, tools/vlib/callgen.py; hook H1; g++/ASan/UBSan",
 ]
 ASSUME = [
     "argument kinds generated: integers (incl. >2^16 and >2^24), strings (incl. empty, with a space), NIL; other kinds travel through the same ScriptVariable copy code and are covered by C10/C04",
-    "that ScriptThread::Execute(Event&)/ScriptVM::End perform exactly the modelled cell operations is checked by the `ret=` field of every call, not proved",
+    "that ScriptThread::Execute(Event&)/ScriptVM::End perform exactly the modelled cell operations is checked by the `ret=` field of every call and, in the call-record scenarios, by every value of every record after every command, not proved",
+    "call-record scenarios: values are integers, strings of letters (incl. empty), NIL and pending results; timed waits are > 0; that the cell part of every state of PtrCell/Call.lean is PtrCell.Reachable holds by construction (every change is a PtrCell.step) but is not a theorem: the driver flags a rejected step (MODEL-STUCK), none occurs",
 ]
 
 
@@ -81,7 +91,7 @@ def check(ctx):
     # (2) the protocol end to end
     exe2 = common.build_full(ctx, "h_engine", ["engine.cpp"])
     d2 = Diff(ctx, PROP, exe2, "sched")
-    bad2 = d2.run_batch([(n, c) for n, c in schedcheck.corpus_cases("C05") if c and c[0] == "reset"])
+    bad2 = d2.run_batch([(n, c) for n, c in schedcheck.corpus_cases("C05") if c and c[0] == "reset" and not is_rec_case(c)])
     rng = ctx.rng("calls")
     batch = []
     for i in range(300 if quick else 25000):
@@ -91,15 +101,31 @@ def check(ctx):
     bad2 += d2.run_batch(batch)
     ctx.oblige("correspondence harness/engine.cpp == Sched.Machine on %d host-call scenarios" % d2.cases,
                bad2 == 0 and d2.failing_cases == 0, "%d differing" % max(bad2, d2.failing_cases), reported=True)
+    # (3) call records: parameters of every scope, records used again, `end <pending result>`
+    exe3 = common.build_full(ctx, "h_callrec", ["callrec.cpp"])
+    d3 = Diff(ctx, REC_PROP, exe3, "callrec")
+    bad3 = d3.run_batch([(n, c) for n, c in schedcheck.corpus_cases("C05") if is_rec_case(c)])
+    rng = ctx.rng("records")
+    batch = []
+    for i in range(400 if quick else 30000):
+        batch.append(("rec:%d" % i, callgen.gen_case(rng)))
+        if len(batch) == 100:
+            bad3 += d3.run_batch(batch); batch = []
+    bad3 += d3.run_batch(batch)
+    ctx.oblige("correspondence harness/callrec.cpp == PtrCell.Call on %d call-record scenarios" % d3.cases,
+               bad3 == 0 and d3.failing_cases == 0, "%d differing" % max(bad3, d3.failing_cases), reported=True)
     sample = schedgen.gen_call_case(ctx.rng("sample"))
     ctx.samples = [gen_cells(ctx.rng("sample"), 10),
                    [l if not l.startswith("script ") else "script m <hex> ## " + l.split("## ", 1)[1] for l in sample]]
+    sample3 = callgen.gen_case(ctx.rng("sample"))
+    ctx.samples.append([l if not l.startswith("script ") else "script m <hex> ## " + l.split("## ", 1)[1] for l in sample3])
     hist = dict(d1.hist)
-    for k, v in d2.hist.items():
-        hist[k] = hist.get(k, 0) + v
-    cov = {"evaluations": d1.cases + d2.cases, "distinct_nontrivial": len(d1.distinct) + len(d2.distinct),
-           "rule": "(a) histories of newcell/newptr/copy/move/assign/destroy/setint/endref/endplain over 6 heap-allocated ScriptVariable cells; (b) scripts whose labels declare 0-8 parameters, print them and finish synchronously / after timed waits / after a notify / never (pause, killed by endon), called with 0-8 arguments of int/string/NIL kinds, incl. labels that do not exist; non-trivial = at least one accepted operation; distinct by SHA-1",
-           "op_histogram": hist, "exhaustive": False, "skipped_after_failures": d1.skipped + d2.skipped}
+    for dd in (d2, d3):
+        for k, v in dd.hist.items():
+            hist[k] = hist.get(k, 0) + v
+    cov = {"evaluations": d1.cases + d2.cases + d3.cases, "distinct_nontrivial": len(d1.distinct) + len(d2.distinct) + len(d3.distinct),
+           "rule": "(a) histories of newcell/newptr/copy/move/assign/destroy/setint/endref/endplain over 6 heap-allocated ScriptVariable cells; (b) scripts whose labels declare 0-8 parameters, print them and finish synchronously / after timed waits / after a notify / never (pause, killed by endon), called with 0-8 arguments of int/string/NIL kinds, incl. labels that do not exist; (c) scripts of 2-5 labels whose 0-6 parameters are local./level./game./parm./group. variables (also assigned by code in front of the first label, which a call without label runs first), that print them, wait, start a helper thread and end with a literal / a variable / the helper's still-pending result, called 3-9 times with 0-7 arguments, the argument count going down, through fresh call records and through records used again while earlier calls made with them still wait; every value of every record is compared after every command; non-trivial = at least one accepted operation; distinct by SHA-1",
+           "op_histogram": hist, "exhaustive": False, "skipped_after_failures": d1.skipped + d2.skipped + d3.skipped}
     return common.finish(ctx, "proof", cov, TRUSTED, ASSUME,
                          "cd lean && lake build && #print axioms audit; python3 tools/check.py C05")
 
@@ -111,6 +137,20 @@ def replay(ctx, obj):
         d = Diff(ctx, CellProp(), exe, "ptrcell")
         impl, crash, info, model = d.both(obj["lines"])
         for i, l in enumerate(obj["lines"]):
+            print("> %s\n  impl : %s\n  model: %s" % (l, impl[i] if i < len(impl) else "<missing>", model[i] if i < len(model) else "<missing>"))
+        if crash:
+            print("CRASH", crash); print(info)
+        bad = crash is not None or common.first_diff(impl, model) is not None
+        print("replay:", "still differs" if bad else "no difference")
+        return 1 if bad else 0
+    if obj.get("area") == "callrec":
+        exe = common.build_full(ctx, "h_callrec", ["callrec.cpp"])
+        d = Diff(ctx, REC_PROP, exe, "callrec")
+        impl, crash, info, model = d.both(obj["lines"])
+        for i, l in enumerate(obj["lines"]):
+            if l.startswith("script "):
+                print(bytes.fromhex(l.split()[2]).decode())
+                l = "script m <hex> ## " + l.split("## ", 1)[-1]
             print("> %s\n  impl : %s\n  model: %s" % (l, impl[i] if i < len(impl) else "<missing>", model[i] if i < len(model) else "<missing>"))
         if crash:
             print("CRASH", crash); print(info)
